@@ -30,10 +30,10 @@ BUDGET_QUICK = 60
 LEVEL_TEXT = ("Kernel-checked theorems (Props/C05.lean): column j of the 2-D table is the j-th parent configuration in C order for every "
               "cardinality list; reorder/marginalise/reduce/normalise preserve P(child|parents) at every assignment (normalised sum for "
               "marginalise); is_valid_cpd accepts exactly the tables whose every column sum is within the tolerance (atol extracted from the "
-              "source and pinned by a decide theorem); check_model's verdict is characterised by its listed conditions. The model is tied to "
+              "source and pinned by a decide theorem); check_model's verdict is characterised by its listed conditions; a network whose CPD columns all sum "
+              "to 1 has joint mass 1, and with column sums within t of 1 the joint mass of an n-node network lies in [(1-t)^n, (1+t)^n]. The model is tied to "
               "TabularCPD / BayesianNetwork.check_model by differential correspondence at every named assignment.")
-LEVEL_NOTE = ("Trusted: Lean kernel + standard axioms; hand-written model; harness; numpy's allclose rtol default. The joint-mass bound is "
-              "checked per generated network only (partial).")
+LEVEL_NOTE = ("Trusted: Lean kernel + standard axioms; hand-written model; harness; numpy's allclose rtol default.")
 TECHNIQUE = "Lean 4 proof over a table model of TabularCPD + AST-extracted tolerance + differential correspondence"
 
 
